@@ -534,6 +534,102 @@ func structureOracle(c *structs.CompiledDiscoveryChain) string {
 	return walk(c.StartNode, 0)
 }
 
+// target identity: where the entries leave no freedom (no redirect, no default subset in the way),
+// the resolver a route or the chain itself lands on must be the service / subset that was asked for
+func plainDestination(es []Entry, svc, sub string) bool {
+	r := findEntry(es, "resolver", svc)
+	if r == nil {
+		return sub == ""
+	}
+	if r.Redirect != nil {
+		return false
+	}
+	if sub == "" {
+		return r.DefaultSubset == ""
+	}
+	for _, x := range r.Subsets {
+		if x == sub {
+			return true
+		}
+	}
+	return false
+}
+
+func identityOracle(c *Case, ch *structs.CompiledDiscoveryChain) string {
+	es := c.Entries
+	want := func(key, svc, sub string) string {
+		n := ch.Nodes[key]
+		if n == nil || n.Type != structs.DiscoveryGraphNodeTypeResolver || n.Resolver == nil {
+			return ""
+		}
+		t := ch.Targets[n.Resolver.Target]
+		if t == nil {
+			return ""
+		}
+		if t.Service != svc || t.ServiceSubset != sub {
+			return fmt.Sprintf("identity:asked-for-%s/%s-got-%s/%s", svc, sub, t.Service, t.ServiceSubset)
+		}
+		return ""
+	}
+	disabled := advancedDisabled(c.Ovr)
+	if rt := findEntry(es, "router", c.Svc); rt != nil && !disabled {
+		start := ch.Nodes[ch.StartNode]
+		if start == nil || start.Type != structs.DiscoveryGraphNodeTypeRouter || len(start.Routes) != len(rt.Routes)+1 {
+			return ""
+		}
+		for i, r := range rt.Routes {
+			s := r.Svc
+			if s == "" {
+				s = c.Svc
+			}
+			if r.Sub == "" && findEntry(es, "splitter", s) != nil {
+				continue
+			}
+			if plainDestination(es, s, r.Sub) {
+				if m := want(start.Routes[i].NextNode, s, r.Sub); m != "" {
+					return m
+				}
+			}
+		}
+		return ""
+	}
+	if findEntry(es, "splitter", c.Svc) != nil && !disabled {
+		return ""
+	}
+	// the chain's own resolver, possibly one redirect away
+	if plainDestination(es, c.Svc, "") {
+		return want(ch.StartNode, c.Svc, "")
+	}
+	if r := findEntry(es, "resolver", c.Svc); r != nil && r.Redirect != nil && r.Redirect.Peer == "" && r.Redirect.Svc != "" && r.Redirect.Svc != c.Svc {
+		if plainDestination(es, r.Redirect.Svc, r.Redirect.Sub) {
+			return want(ch.StartNode, r.Redirect.Svc, r.Redirect.Sub)
+		}
+	}
+	return ""
+}
+
+func dottedNames(es []Entry) bool {
+	for _, e := range es {
+		if strings.Contains(e.Name, ".") {
+			return true
+		}
+		for _, r := range e.Routes {
+			if strings.Contains(r.Svc, ".") {
+				return true
+			}
+		}
+		for _, sp := range e.Splits {
+			if strings.Contains(sp.Svc, ".") {
+				return true
+			}
+		}
+		if e.Redirect != nil && strings.Contains(e.Redirect.Svc, ".") {
+			return true
+		}
+	}
+	return false
+}
+
 // entries-level facts the oracle uses to decide "a cycle must have been reported"
 func findEntry(es []Entry, kind, name string) *Entry {
 	for i := range es {
@@ -706,6 +802,10 @@ func runCompileCase(c *Case, rng *rand.Rand, reps int) {
 					c.Oracle = s
 					c.Sig = map[string]interface{}{"kind": strings.SplitN(s, ":", 2)[0], "what": s}
 				}
+			}
+			if s := identityOracle(c, r.chain); s != "" && c.Oracle == "" {
+				c.Oracle = s
+				c.Sig = map[string]interface{}{"kind": "target-identity", "dotted_name": dottedNames(c.Entries)}
 			}
 		}
 		o, conv := project(r)
@@ -935,6 +1035,12 @@ func (g *gen) entrySet(malformed bool) []Entry {
 						f.Svc = g.pick(g.svcs)
 					}
 				}
+				if malformed && g.p(0.15) {
+					// Validate refuses Datacenters together with Targets; Compile takes the Datacenters
+					f.DCs = []string{g.pick(dcsU)}
+					f.Targets = []FTarget{{Svc: g.pick(g.svcs), DC: g.pick(dcsU)}}
+					f.Svc = g.pick(append([]string{""}, g.svcs...))
+				}
 				r.Failover = append(r.Failover, f)
 			}
 		}
@@ -1106,17 +1212,24 @@ func (g *gen) splitterFamily(emit func(Case), weightVariants int) {
 // three-deep splitter chains with weights that round differently depending on the order in
 // which flattenAdjacentSplitterNodes meets the nodes (any weights: the model multiplies exactly)
 func (g *gen) deepChains(emit func(Case), count int) {
+	g.deepChainsNamed(emit, count, [3]string{"a", "b", "c"}, "deep-chain")
+	// names that sort differently as plain strings and as "splitter:<name>.default.default" ids
+	g.deepChainsNamed(emit, (count+2)/3, [3]string{"ab", "a", "a-b"}, "deep-chain-names")
+	g.deepChainsNamed(emit, (count+2)/3, [3]string{"a-b", "ab", "a"}, "deep-chain-names")
+}
+
+func (g *gen) deepChainsNamed(emit func(Case), count int, n [3]string, genName string) {
 	ws := [][]int{{3333, 6667}, {5000, 5000}, {1250, 8750}, {2500, 7500}, {500, 9500}, {3300, 6700}, {4500, 5500}}
 	for i := 0; i < count; i++ {
 		mk := func(name, next string) Entry {
 			w := ws[g.rng.Intn(len(ws))]
 			return Entry{Kind: "splitter", Name: name, Splits: []Split{{W: w[0], Svc: next}, {W: w[1], Svc: name, Sub: ""}}}
 		}
-		es := []Entry{{Kind: "proxy", Name: "global", Protocol: "http"}, mk("a", "b"), mk("b", "c"), mk("c", "c")}
+		es := []Entry{{Kind: "proxy", Name: "global", Protocol: "http"}, mk(n[0], n[1]), mk(n[1], n[2]), mk(n[2], n[2])}
 		// the last splitter splits between two subsets of itself
-		es[3].Splits = []Split{{W: es[3].Splits[0].W, Svc: "c", Sub: "v1"}, {W: es[3].Splits[1].W, Svc: "c", Sub: "v2"}}
-		es = append(es, Entry{Kind: "resolver", Name: "c", Subsets: []string{"v1", "v2"}})
-		c := Case{Kind: "compile", Gen: "deep-chain", Entries: es, Svc: "a", DC: "dc1", ToCoq: true}
+		es[3].Splits = []Split{{W: es[3].Splits[0].W, Svc: n[2], Sub: "v1"}, {W: es[3].Splits[1].W, Svc: n[2], Sub: "v2"}}
+		es = append(es, Entry{Kind: "resolver", Name: n[2], Subsets: []string{"v1", "v2"}})
+		c := Case{Kind: "compile", Gen: genName, Entries: es, Svc: n[0], DC: "dc1", ToCoq: true}
 		c.Valid = allValid(es)
 		emit(c)
 	}
@@ -1403,7 +1516,15 @@ func runStoreCase(c *Case, universe []string) {
 					}
 					if !ok2 && !brokenCtx[x+"|"+cxo[0]+"|"+cxo[1]] {
 						c.Oracle = fmt.Sprintf("write-guard:chain-%s-compiles-in-dc1-but-not-in-dc=%s-override=%q@%d:%s", x, cxo[0], cxo[1], i, msg2)
-						c.Sig = map[string]interface{}{"kind": "context-dependent-chain", "dc": cxo[0], "override": cxo[1], "error": errClassOfMsg(msg2)}
+						_, after, _ := s.ConfigEntries(nil, structs.WildcardEnterpriseMetaInDefaultPartition())
+						inFront := false
+						for _, e := range after {
+							if e.GetName() == x && (e.GetKind() == structs.ServiceRouter || e.GetKind() == structs.ServiceSplitter) {
+								inFront = true
+							}
+						}
+						c.Sig = map[string]interface{}{"kind": "context-dependent-chain", "dc": cxo[0],
+							"override_disables_routing": advancedDisabled(cxo[1]), "router_or_splitter_in_front": inFront}
 					}
 					brokenCtx[x+"|"+cxo[0]+"|"+cxo[1]] = !ok2
 				}
@@ -1411,8 +1532,6 @@ func runStoreCase(c *Case, universe []string) {
 		}
 	}
 }
-
-func errClassOfMsg(m string) int { return errCode(fmt.Errorf("%s", m)) }
 
 func (g *gen) storeOps() []Op {
 	var es []Entry
@@ -1703,6 +1822,24 @@ func main() {
 		for i := 0; i < 4000 && !hung; i++ {
 			emitC(g4.compileCase("random4", g4.entrySet(i%4 == 0)))
 		}
+	}
+	// dotted, prefix and hyphen names: outside the model's "ids are triples" assumption (oracle only)
+	gd := &gen{rng: rng, svcs: []string{"a", "v1.a", "a.b", "ab", "a-b"}, parts: g.parts}
+	for i := 0; i < nWide/2 && !hung; i++ {
+		c := gd.compileCase("dotted-names", gd.entrySet(i%5 == 0))
+		c.ToCoq = false
+		emitC(c)
+	}
+	for _, sw := range [][2]int{{0, 1}, {1, 0}} {
+		rts := []Route{{Svc: "a", Sub: "v1"}, {Svc: "v1.a"}}
+		emitC(Case{Kind: "compile", Gen: "dotted-names", Svc: "x", DC: "dc1", Valid: true, Entries: []Entry{
+			{Kind: "proxy", Name: "global", Protocol: "http"}, {Kind: "resolver", Name: "a", Subsets: []string{"v1"}},
+			{Kind: "router", Name: "x", Routes: []Route{rts[sw[0]], rts[sw[1]]}}}})
+	}
+	// hyphen / prefix names inside the model (sort key of the flatten order, memo keys)
+	gh := &gen{rng: rng, svcs: []string{"a", "ab", "a-b"}, parts: g.parts}
+	for i := 0; i < nRandom/6 && !hung; i++ {
+		emitC(gh.compileCase("hyphen-names", gh.entrySet(false)))
 	}
 	for i := 0; i < nWide && !hung; i++ {
 		emitC(g.wideCase())
